@@ -173,7 +173,10 @@ def first_then_second(ctx, prog, cfg, meth, take, first, second, what):
                     seen_second = True
                     continue
                 why.append("returns None without `%s` being exhausted too" % second)
-            elif e == A and False:
+            elif e == A and variant_known(b, A, 1):
+                continue  # A passed on whole where it is Some
+            elif Bx is not None and e == Bx:
+                seen_second = True  # B passed on whole (it is evaluated only where A is None)
                 continue
             else:
                 why.append("returns `%s`" % mir.fmt(e, f)[:60])
